@@ -4,6 +4,9 @@
 From Coq Require Import Extraction ExtrOcamlBasic.
 From Coq Require Import List ZArith QArith Qcanon.
 From TK Require Import Mat_Sums Mat_Qc Knn_Spec Tsne_Model Tsne_Vp_Model Tsne_Sym_Model Tsne_Spec.
+(* wave 2: the perplexity search in its reduced representation (Tsne_Proof_PerpRed: same result as
+   Tsne_Model.perp_loop) and computeGradient on c18's quadtree model (QuadTree(Y, N) = tsne_tree) *)
+From TK Require Import Tsne_PerpRed_Model QuadTree_Model QuadTree_SpecExec Tsne_BH_Model.
 
 Definition c17_sqdist_fixed := @sqdist_fixed Qc QcOps.
 Definition c17_true_sqdist := @true_sqdist Qc QcOps.
@@ -18,4 +21,5 @@ Extraction "c17_model.ml"
   Q2Qc this Qred
   c17_sqdist_fixed c17_true_sqdist c17_zero_mean c17_exact_grad c17_grad_spec c17_dense_joint
   c17_symmetrize c17_sym_spec_b
-  vp_search_pairs bh_row_pairs vp_inv_b vp_holds_b is_knn_b metric_b.
+  vp_search_pairs bh_row_pairs vp_inv_b vp_holds_b is_knn_b metric_b
+  perp_row_r tsne_tree bh_gradient.
